@@ -31,7 +31,7 @@ CLAIMS = {
          "6 C06", "Coq proof (checkpoint lemmas) + exhaustive crash-point enumeration per scenario; two known findings"),
  "C07": ("proof + twin runs: what recovery reads from flash is the live bookkeeping at every fragment boundary, and every call preserves the pairing between the flash-backed and the abstract session, and on the executable model the two loaders of try_recover_inner return exactly the live done / used bits after any list of Ok calls (theorems); every reboot position of generated scripts (single, several, every position; debug and release) is compared with the uninterrupted run on the real crate and with the model.",
          "6 C07", "Coq proof (refinement / round trip) + twin-run differential"),
- "C08": ("proof: the flash-backed parity / matrix storages can only program inside [parity slot + 0x400, slot end) for any arguments, data blocks and status bytes land where the layout says for accepted geometries, rows / blocks are disjoint (arithmetic for every index and size), NOR read-back; every erase / program of every generated scenario (ring positions incl. the last slot, losses beyond capacity, every other API call via the ring closure) is monitored and compared with the model.",
+ "C08": ("proof: the flash-backed parity / matrix storages can only program inside [parity slot + 0x400, slot end) for any arguments, data blocks and status bytes land where the layout says for accepted geometries, rows / blocks are disjoint (arithmetic for every index and size), NOR read-back, and at run level on the executable model every handle_segment call (any outcome, any fault), every delivery and every successful start_update touches only the session's two slots (c08_handle_segment_confined, c08_delivery_confined, c08_start_update_confined); every erase / program of every generated scenario (ring positions incl. the last slot, losses beyond capacity, every other API call via the ring closure) is monitored and compared with the model.",
          "6 C08", "Coq proof (address arithmetic, confinement) + operation-log monitor over differential streams"),
  "C10": ("proof: the three implementation-shaped generators equal the TS004 reference for every M and 1 <= N <= 16383 in both feature modes, index shift of the updater matrix, rows in range / non-empty / exact weight with force-full-r, interop vectors and pinned rows by computation; termination is NOT proved (exercised only); lfdbt stream over exhaustive small and sampled large (M, N) in both builds against the model and an independent reference.",
          "6 C10", "Coq proof (generator = spec) + differential lfdbt stream; termination clause exercised only"),
